@@ -1262,9 +1262,9 @@ theorem Mid.remove_entry {L g0} {s s' : St} (h : Mid L g0 s) {e : SEntry} (he : 
   · rw [hl]; exact h.lim
 
 /-- Inserting a fresh entry with a fresh timer key and a fresh execution. -/
-theorem Mid.insert_entry {L g0} {s s' : St} (h : Mid L g0 s) {id key rem : Nat}
+theorem Mid.insert_entry {L g0} {s s' : St} (h : Mid L g0 s) {id key rem due : Nat}
     (hfresh : ∀ e ∈ s.inflight, e.id ≠ id)
-    (hin : s'.inflight = s.inflight ++ [{ id := id, timerKey := key, rid := s.execs.length, remainder := rem }])
+    (hin : s'.inflight = s.inflight ++ [{ id := id, timerKey := key, rid := s.execs.length, remainder := rem, dueAt := due }])
     (hkv : s'.timers.kv.Perm ((key, id) :: s.timers.kv)) (hwf : s'.timers.KvWF)
     (hek : s'.execs.map ekey = s.execs.map ekey ++ [(s.execs.length, id, false)])
     (hg : gh L g0 s'.obs = gh L g0 s.obs)
@@ -1470,7 +1470,8 @@ theorem startRequest_cases (s : St) (now id d : Nat) (tr : Trace) (b : Nat) :
           ({ startWoke s w with
                     timers := q, nextFresh := s.nextFresh + 1,
                     inflight := s.inflight ++ [{ id := id, timerKey := key, rid := s.execs.length,
-                                                 remainder := (d - now) - clampTimeout (d - now) }],
+                                                 remainder := (d - now) - clampTimeout (d - now),
+                                                 dueAt := now + clampTimeout (d - now) }],
                     execs := s.execs ++ [newExec s id d tr b] }, some (newExec s id d tr b))) := by
   unfold startRequest
   split
@@ -1615,7 +1616,7 @@ theorem startRequest_cases (s : St) (now id d : Nat) (tr : Trace) (b : Nat) :
 @[simp] theorem cancelRequest_gh (L : Option Nat) (g0 : Ghost) (s : St) (id : Nat) : gh L g0 (cancelRequest s id).1.obs = gh L g0 s.obs := by
   unfold cancelRequest; (try simp only []); (repeat' split) <;> pair_subst <;> simp [*]
 
-theorem rearm_gh (L : Option Nat) (g0 : Ghost) {s s2 : St} {now late : Nat} {en : SEntry} (hr : rearm s now late en = some s2) :
+theorem rearm_gh (L : Option Nat) (g0 : Ghost) {s s2 : St} {now : Nat} {en : SEntry} (hr : rearm s now en = some s2) :
     gh L g0 s2.obs = gh L g0 s.obs := by
   obtain ⟨q', key, w, _, rfl⟩ := rearm_some hr
   cases w <;> simp
@@ -2027,14 +2028,14 @@ theorem mid_cancelRequest {L g0} (s : St) (id : Nat) (h : Mid L g0 s) : Mid L g0
     exact (h.remove_timer_step he _ (by simp) (by simp) (Or.inr (by simp)) (by simp) (by simp)).1
 
 /-- with distinct ids, re-keying the entry with `en`'s id changes only `en`'s `(timerKey, id)` pair -/
-theorem perm_map_rearmUpd {l : List SEntry} (hn : (l.map (·.id)).Nodup) {en : SEntry} (he : en ∈ l) (key late : Nat) :
-    ((l.map (rearmUpd en.id key late)).map SEntry.kv).Perm
+theorem perm_map_rearmUpd {l : List SEntry} (hn : (l.map (·.id)).Nodup) {en : SEntry} (he : en ∈ l) (key now : Nat) :
+    ((l.map (rearmUpd en.id key now)).map SEntry.kv).Perm
       ((key, en.id) :: (l.filter (fun x => x.id != en.id)).map SEntry.kv) := by
   have h1 := perm_cons_filter_key (·.id) hn he
-  have h2 := (h1.map (rearmUpd en.id key late)).map SEntry.kv
+  have h2 := (h1.map (rearmUpd en.id key now)).map SEntry.kv
   refine h2.trans ?_
   simp only [List.map_cons]
-  have hhead : (rearmUpd en.id key late en).kv = (key, en.id) := by
+  have hhead : (rearmUpd en.id key now en).kv = (key, en.id) := by
     unfold rearmUpd; rw [if_pos (by simp)]; rfl
   rw [hhead]
   refine List.Perm.cons _ (List.Perm.of_eq ?_)
@@ -2047,9 +2048,9 @@ theorem perm_map_rearmUpd {l : List SEntry} (hn : (l.map (·.id)).Nodup) {en : S
 
 /-- Re-arming the timer of a tracked entry: the fired timer is gone from the queue, a fresh one with a
 fresh key is in, the entry carries the new key. -/
-theorem Mid.rearm_entry {L g0} {s s' : St} (h : Mid L g0 s) {en : SEntry} (he : en ∈ s.inflight) {key late : Nat}
+theorem Mid.rearm_entry {L g0} {s s' : St} (h : Mid L g0 s) {en : SEntry} (he : en ∈ s.inflight) {key now : Nat}
     {kvq : List (Nat × Nat)}
-    (hin : s'.inflight = s.inflight.map (rearmUpd en.id key late))
+    (hin : s'.inflight = s.inflight.map (rearmUpd en.id key now))
     (hpop : s.timers.kv.Perm (en.kv :: kvq))
     (hins : s'.timers.kv.Perm ((key, en.id) :: kvq)) (hwf : s'.timers.KvWF)
     (hek : s'.execs.map ekey = s.execs.map ekey)
@@ -2065,7 +2066,7 @@ theorem Mid.rearm_entry {L g0} {s s' : St} (h : Mid L g0 s) {en : SEntry} (he : 
   refine ⟨⟨?_, ?_, hwf⟩, ⟨?_, ?_, ?_⟩, ⟨?_, ?_⟩, ?_, ?_⟩
   · rw [hids]; exact h.table.idNodup
   · rw [hin]
-    refine (perm_map_rearmUpd h.table.idNodup he key late).trans ?_
+    refine (perm_map_rearmUpd h.table.idNodup he key now).trans ?_
     have h1 := perm_cons_filter_key (·.id) h.table.idNodup he
     have h2 := (h1.map SEntry.kv)
     rw [List.map_cons] at h2
@@ -2140,7 +2141,7 @@ theorem mid_expireStep {L g0} (s : St) (now : Nat) (h : Mid L g0 s) : Mid L g0 (
         rw [hnk]
         exact h.table.dq.lt p (hperm.mem_iff.mpr (List.mem_cons_of_mem _ hp))
     have hwf := DelayQ.insert_ok_wf _ _ _ _ _ _ _ hi hqwf
-    refine h.rearm_entry hen (key := key) (late := now - d.whenMs * nsPerMs) (kvq := q.kv) rfl (by rw [henkv]; exact hperm) hp' hwf ?_ ?_ ?_
+    refine h.rearm_entry hen (key := key) (now := now) (kvq := q.kv) rfl (by rw [henkv]; exact hperm) hp' hwf ?_ ?_ ?_
     · cases w <;> simp
     · cases w <;> simp
     · cases w <;> simp
@@ -2467,7 +2468,8 @@ structure Started (s0 s' : St) (ex : Exec) : Prop where
   phase : ex.phase = .offered
   vis : ex.vis = none
   aborted : ex.aborted = false
-  inflight : ∃ key rem, s'.inflight = s0.inflight ++ [{ id := ex.id, timerKey := key, rid := ex.rid, remainder := rem }]
+  inflight : ∃ key rem due, s'.inflight = s0.inflight ++
+    [{ id := ex.id, timerKey := key, rid := ex.rid, remainder := rem, dueAt := due }]
   execs : s'.execs = s0.execs ++ [ex]
   untracked : findEntry s0 ex.id = none
 
@@ -2479,7 +2481,7 @@ theorem startRequest_some (s : St) (now id d : Nat) (tr : Trace) (b : Nat) (s' :
   · rw [h1] at h
     simp only [Prod.mk.injEq, Option.some.injEq] at h
     obtain ⟨rfl, rfl⟩ := h
-    exact ⟨⟨rfl, rfl, rfl, rfl, ⟨key, _, rfl⟩, rfl, hf⟩, rfl⟩
+    exact ⟨⟨rfl, rfl, rfl, rfl, ⟨key, _, _, rfl⟩, rfl, hf⟩, rfl⟩
 
 /-- **`BaseChannel::poll_next` yields only what it just started**: some intermediate state `s0`
 (reached from `s` by removals only) accepted the request. -/
@@ -2539,16 +2541,17 @@ theorem basePollNext_some (fuel : Nat) (s : St) (now : Nat) (s' : St) (ex : Exec
 
 theorem Started.length {s0 s' : St} {ex : Exec} (h : Started s0 s' ex) :
     s'.inflight.length = s0.inflight.length + 1 := by
-  obtain ⟨key, rem, hk⟩ := h.inflight; simp [hk]
+  obtain ⟨key, rem, due, hk⟩ := h.inflight; simp [hk]
 
 theorem Started.rid_lt {s0 s' : St} {ex : Exec} (h : Started s0 s' ex) : ex.rid < s'.execs.length := by
   rw [h.execs, h.rid]; simp
 
 /-- the new entry is the one `findEntry` returns for the id -/
 theorem Started.findEntry {s0 s' : St} {ex : Exec} (h : Started s0 s' ex) :
-    ∃ key rem, findEntry s' ex.id = some { id := ex.id, timerKey := key, rid := ex.rid, remainder := rem } := by
-  obtain ⟨key, rem, hk⟩ := h.inflight
-  refine ⟨key, rem, ?_⟩
+    ∃ key rem due, findEntry s' ex.id =
+      some { id := ex.id, timerKey := key, rid := ex.rid, remainder := rem, dueAt := due } := by
+  obtain ⟨key, rem, due, hk⟩ := h.inflight
+  refine ⟨key, rem, due, ?_⟩
   have hn := h.untracked
   unfold Server.findEntry at hn ⊢
   rw [hk, List.find?_append, hn]
